@@ -166,6 +166,17 @@ func runSearchCase(c *caseCtx, zt *board.ZobristTable, zseed int64, fenStr strin
 	if err != nil || pos == nil {
 		return
 	}
+	if cfg.quiet {
+		// the reference for these cases is the exhaustive specification minimax over the exhaustive quiet
+		// search: at depth 4 a single rich position takes it longer than the whole rest of the pass
+		ds := append([]int(nil), cfg.depths...)
+		for i := range ds {
+			if ds[i] > 3 {
+				ds[i] = 3
+			}
+		}
+		cfg.depths = ds
+	}
 	b := board.NewBoard(zt, pos, turn, np, fm)
 	var hist []string
 	for _, h := range history {
